@@ -68,6 +68,17 @@ st("C06", "exploration", "deterministic simulation: hostile media on the Read se
 CHECKS["C06"]["engine"] = "lzsim-st + lzsim-mt"
 CHECKS["C13"]["engine"] = "lzsim-st + lzsim-mt"
 
+st("C17", "exploration", "deterministic simulation: the allocator seam (counting global allocator, measurement scopes) around construction and a complete run; grid by seeded generation",
+   "Peak requested heap of encoders and decoders is compared with the crate's estimators (sound: peak <= estimate; tight: estimate <= 1.25 x peak + 256 KiB) over a grid of dictionary sizes, lc/lp/pb, modes and match finders; new_mem_limit must refuse with OutOfMemory before allocating whenever the header needs more than the limit.",
+   "Requested bytes, not resident pages. Tightness constants measured once on the repaired tree (documented next to them in scen/memory.rs).")
+st("C19", "exploration", "seeded boundary grid over the option structs executed inside the simulator (misconfiguration as the injected fault); the simulator itself adds little here",
+   "Every public option field is pushed to and beyond its documented range for every writer; the outcome must be an error from some operation or a stream the crate's own reader decodes to the written bytes, never a panic.",
+   "Honest caveat: this is a configuration grid with a round-trip oracle, run through the same harness; no schedule or I/O fault is involved.")
+CHECKS["C14"] = dict(engine="lzsim-xcfg", category="exploration", design_ref="DESIGN.md §3 C14",
+   technique="deterministic simulation of one seed against four library configurations linked into one process (shadow packages with different features), incl. position-jump and fault-injected decode runs; direct twin comparison through hook H6",
+   text="Default, std-without-optimization, no_std+optimization and no_std builds of the current tree execute the same case: compressed bytes (also across a 31-bit position wrap) and decode outcomes (bytes delivered, Ok/Err, error class) for valid, truncated, damaged and garbage streams must be identical; scalar vs SIMD renormalisation and assembly vs portable decode_direct_bits are compared directly on generated state.",
+   note="x86_64 little-endian host only (AVX2/SSE4.1 as detected); aarch64 assembly, NEON and big-endian branches are not executed.")
+
 NOT_YET = {}
 for i in range(1, 20):
     pid = f"C{i:02d}"
@@ -100,6 +111,7 @@ def main():
         },
         "engines": [
             {"name": "lzsim-st", "path": "/verif/sim/st", "serves_properties": sorted(p for p, c in CHECKS.items() if "lzsim-st" in c["engine"]), "kind_free_text": "seeded single-process simulator over the Read/Write/allocator seams, worker processes, minimiser, replay files"},
+            {"name": "lzsim-xcfg", "path": "/verif/sim/xcfg", "serves_properties": ["C14"], "kind_free_text": "one seed executed against four feature configurations of the library linked into one process"},
             {"name": "lzsim-mt", "path": "/verif/sim/mt", "serves_properties": sorted(p for p, c in CHECKS.items() if "lzsim-mt" in c["engine"]), "kind_free_text": "the same simulator plus a seeded scheduler (own implementation of shuttle's Scheduler trait) deciding every interleaving of coordinator and worker threads"},
         ],
         "checks": checks,
